@@ -1,6 +1,7 @@
 import SfVerif.Model.Proto
 import SfVerif.Lemmas.Blit
 import SfVerif.Lemmas.Intern4
+import SfVerif.Lemmas.Sched
 /-! C12 — an interned string id always resolves to the bytes that were interned. -/
 namespace SfVerif.Props.C12
 open SfVerif SfVerif.Gen
@@ -273,5 +274,20 @@ example : Resolves (Thread.run 64 {} [.internreq 2, .intern #[7], .interncopy #[
   have h2 := resolves_run hinv h1 [.interncopy #[1, 2], .cached #[9]]
   rw [← run_istate 64 _] at h2
   exact h2
+
+/-- **C12 under every interleaving of any number of threads**: an id that resolves to `bs` on
+    thread `t` at some point of a schedule resolves to `bs` on that thread after every
+    continuation of the schedule, whatever all the threads (this one included) do next and
+    wherever their steps fall. (Schedule theorem: `Lemmas/Sched`.) -/
+theorem C12_every_schedule (w : Nat) (s1 s2 : Sys.Sched) (t id : Nat) (bs : Bytes)
+    (h : Resolves ((Sys.runSched w {} s1).1.get t).istate id bs) :
+    ((Sys.runSched w (Sys.runSched w {} s1).1 s2).1.get t).ctx.interner.get? id = some bs := by
+  have h1 := (SfVerif.Props.C14.noninterference_from w t s1 {}).2
+  have h0 : ({} : Sys).get t = {} := by simp [Sys.get]
+  rw [h0] at h1
+  have h2 := (SfVerif.Props.C14.noninterference_from w t s2 (Sys.runSched w {} s1).1).2
+  rw [h2, h1]
+  rw [h1] at h
+  exact C12_id_resolves_forever w _ _ id bs h
 
 end SfVerif.Props.C12
